@@ -421,7 +421,9 @@ a flat array of reference-holding slots (slot `6·t + f`: field `f` of trait `t`
 fields in the order `py_post_setattr, py_validate, default_value,
 delegate_name, delegate_prefix, handler`) and a reference count per object
 (only the references OWNED BY TRAIT FIELDS AND BY THE RUNNING C FUNCTION are
-counted; what the caller holds is a constant on top).  Every C entry point is
+counted; what the caller holds is a constant on top).  Tree of 86511b4: every
+entry point stores the new value before it releases the old one (F79, d96fc77)
+and releases what it overwrites (F79b, 86511b4).  Every C entry point is
 the event list it performs, in source order, so that ALIASED arguments
 (`t.clone(t)`, the object a field already holds) need no special case.
 Foreign code (finalizers, weak-reference callbacks) can run right after every
@@ -470,41 +472,61 @@ def decs (vs : List (Option Nat)) : List Ev := vs.filterMap (fun v => v.map Ev.d
 def stores (ws : List (Nat × Option Nat)) : List Ev := ws.map (fun w => Ev.store w.1 w.2)
 
 inductive Op where
-  /-- `set_value` (handler, post_setattr, `__dict__`) and `_trait_set_default_value`:
-  INCREF new; store; XDECREF old. -/
+  /-- `set_value` (handler, post_setattr, `__dict__`), `_trait_set_default_value` and (since d96fc77)
+  `_trait_set_validate`: INCREF new; store; XDECREF old. -/
   | set (i new : Nat)
-  /-- `_trait_set_validate`: INCREF new; XDECREF(field); store. -/
-  | setEarly (i new : Nat)
   /-- `Py_CLEAR(field)` (`trait_clear`). -/
   | clear (i : Nat)
-  /-- `_trait_set_property`: the stores, then the INCREFs; nothing is released. -/
+  /-- `_trait_set_property` (since 86511b4): remember the old contents; the stores; the INCREFs; XDECREF of what
+  was remembered. -/
   | put (ws : List (Nat × Option Nat))
-  /-- `trait_clone`: `trait->f = source->f; …; Py_XINCREF(trait->f); …`; nothing is released. -/
+  /-- `trait_clone` (since 86511b4): remember the target's contents; `trait->f = source->f; …`;
+  `Py_XINCREF(trait->f); …`; XDECREF of what was remembered. -/
   | copy (dst src : List Nat)
   /-- `t.__setstate__(s.__getstate__())`: the state tuple holds a reference to every value while
-  `_trait_setstate` stores and INCREFs them; nothing else is released. -/
+  `_trait_setstate` remembers the old contents, stores, INCREFs and releases the old contents; then the tuple
+  goes away. -/
   | restate (dst src : List Nat)
-  /-- a field set again from its own getter (`t.handler = t.handler`); `early`: with `_trait_set_validate`. -/
-  | reset (i : Nat) (early : Bool)
+  /-- a field set again from its own getter (`t.handler = t.handler`). -/
+  | reset (i : Nat)
   /-- getters: a new reference each, released by the caller. -/
   | read (is : List Nat)
 
+/-- The event list of `put`: `olds` are the contents of the written slots BEFORE the call. -/
+def putEvents (s : MS) (ws : List (Nat × Option Nat)) : List Ev :=
+  stores ws ++ incs (ws.map (·.2)) ++ decs (ws.map (fun w => s.at w.1))
+
 def compile (s : MS) : Op → List Ev
   | .set i new => [.incref new, .store i (some new)] ++ decs [s.at i]
-  | .setEarly i new => [.incref new] ++ decs [s.at i] ++ [.store i (some new)]
   | .clear i => [.store i none] ++ decs [s.at i]
-  | .put ws => stores ws ++ incs (ws.map (·.2))
-  | .copy dst src => stores (dst.zip (src.map s.at)) ++ incs ((dst.zip (src.map s.at)).map (·.2))
+  | .put ws => putEvents s ws
+  | .copy dst src => putEvents s (dst.zip (src.map s.at))
   | .restate dst src =>
-    incs (src.map s.at) ++ (stores (dst.zip (src.map s.at)) ++ incs ((dst.zip (src.map s.at)).map (·.2)))
-      ++ decs (src.map s.at)
-  | .reset i early =>
+    incs (src.map s.at) ++ putEvents s (dst.zip (src.map s.at)) ++ decs (src.map s.at)
+  | .reset i =>
     match s.at i with
     | none => []
-    | some o =>
-      if early then [.incref o, .incref o, .decref o, .store i (some o), .decref o]
-      else [.incref o, .incref o, .store i (some o), .decref o, .decref o]
+    | some o => [.incref o, .incref o, .store i (some o), .decref o, .decref o]
   | .read is => incs (is.map s.at) ++ decs (is.map s.at)
+
+/-- The slots an operation writes are pairwise different (they are different fields of one trait). -/
+def Op.WF : Op → Prop
+  | .put ws => (ws.map (·.1)).Nodup
+  | .copy dst src => dst.Nodup ∧ dst.length = src.length
+  | .restate dst src => dst.Nodup ∧ dst.length = src.length
+  | _ => True
+
+/-- The slots an operation writes exist. -/
+def Op.InRange (s : MS) : Op → Prop
+  | .set i _ => i < s.ptr.length
+  | .clear i => i < s.ptr.length
+  | .put ws => ∀ w ∈ ws, w.1 < s.ptr.length
+  | .copy dst _ => ∀ i ∈ dst, i < s.ptr.length
+  | .restate dst _ => ∀ i ∈ dst, i < s.ptr.length
+  | _ => True
+
+/-- References to `o` that no slot accounts for (held by the caller, or leaked). -/
+def MS.slack (s : MS) (o : Nat) : Int := s.rc o - (s.held o : Int)
 
 /-- One API call: the checkpoint states and the state afterwards. -/
 def step (s : MS) (op : Op) : List MS × MS := (checkpoints (compile s op) s, run (compile s op) s)
